@@ -155,7 +155,7 @@ func init() {
 						r.Backend.Resp.WriteMode, r.Backend.Resp.WriteSizes = "sizes", []int{Pick(c, 1, 2, 3, 5, 7)}
 					}
 				} else if c.Prob(0.45) {
-					spoil(c, r, Pick(c, "cut", "corrupt-compressed", "backend-panic", "client-gone", "backend-garbage", "end-garbage", "end-garbage", "undecodable", "corrupt-response", "bad-validation"))
+					spoil(c, r, Pick(c, "cut", "corrupt-compressed", "backend-panic", "client-gone", "backend-garbage", "end-garbage", "end-garbage", "undecodable", "corrupt-response", "bad-validation", "lib-fault"))
 				}
 				rpcs = append(rpcs, *r)
 			}
